@@ -425,6 +425,84 @@ func runC06(c *core.Ctx) {
 			c06Datagram(cs, fs, src)
 		})
 	}
+	// multi-step: decoding into a CompoundPacket variable that already holds a result
+	c.Section("compound-receiver", c.N(40000, 1500000), func(cs *core.Case) {
+		r := cs.R
+		enc := func() []byte {
+			var b []byte
+			for _, m := range *gen.CompoundValue(r, gen.Opts{Small: true, NoBig: true}) {
+				e, err := ref.Encode(m, ref.Lib)
+				if err != nil {
+					return nil
+				}
+				b = append(b, e.B...)
+			}
+			return b
+		}
+		a, good2 := enc(), enc()
+		if a == nil || good2 == nil {
+			return
+		}
+		var cp rtcp.CompoundPacket
+		var err error
+		guard := func(in []byte) string {
+			panicked, v, st := core.Guard(func() { err = cp.Unmarshal(in) })
+			if panicked {
+				return fmt.Sprintf("%v\n%s", v, st)
+			}
+			return ""
+		}
+		if pan := guard(cloneBytes(a)); pan != "" {
+			cs.Fail("panic/CompoundPacket.Unmarshal", core.W{"input_hex": mon.Hex(a, 300), "panic": pan})
+			return
+		}
+		cs.Eval(1)
+		if err != nil {
+			return // a member outside what the library accepts (e.g. SLI dispatch): not judged here
+		}
+		snapshot := clonePacket(&cp).(*rtcp.CompoundPacket)
+		first := cp // the caller keeps the earlier result (slice header copy)
+		// (1) a datagram with good frames and then a malformed one: error, and nothing of it is returned
+		bad := append(cloneBytes(good2), malformedFrame(r)...)
+		if r.Bool() {
+			bad = good2[:len(good2)-1-r.Intn(3)] // truncated tail
+		}
+		if pan := guard(cloneBytes(bad)); pan != "" {
+			cs.Fail("panic/CompoundPacket.Unmarshal", core.W{"input_hex": mon.Hex(bad, 300), "panic": pan})
+			return
+		}
+		cs.Eval(1)
+		cs.Distinct(core.Digest([]byte("cr"), a, bad))
+		cs.Count("compound-receiver")
+		det := func(extra core.W) func() core.W {
+			return func() core.W {
+				d := core.W{"first_datagram_hex": mon.Hex(a, 200), "second_datagram_hex": mon.Hex(bad, 200), "held_before": vdump(snapshot), "held_after": vdump(&cp), "kept_copy_after": vdump(&first)}
+				for k, v := range extra {
+					d[k] = v
+				}
+				return d
+			}
+		}
+		if !cs.Check(err != nil, "all-or-nothing/compound-accepts-malformed", det(nil)) {
+			return
+		}
+		if !cs.Check(mon.SemEqual(&cp, snapshot) && mon.SemEqual(&first, snapshot), "all-or-nothing/compound-receiver-changed-on-error",
+			det(core.W{"note": "a failed decode must return no packets: the variable (and the result the caller kept from the earlier decode) must be unchanged"})) {
+			return
+		}
+		// (2) a second successful decode into the same variable must not rewrite the result kept from the first
+		if pan := guard(cloneBytes(good2)); pan != "" {
+			cs.Fail("panic/CompoundPacket.Unmarshal", core.W{"input_hex": mon.Hex(good2, 300), "panic": pan})
+			return
+		}
+		cs.Eval(1)
+		if err != nil {
+			return
+		}
+		want, werr, _ := gUnmarshal(cloneBytes(good2))
+		cs.Check(mon.SemEqual(&first, snapshot), "context-free/earlier-result-overwritten", det(core.W{"note": "the packets returned by the first decode changed when the same variable was decoded into again"}))
+		cs.Check(werr == nil && mon.SemEqual([]rtcp.Packet(cp), want), "exactly-once/compound-second-decode", det(core.W{"expected": vdump(want)}))
+	})
 	// neighbours replaced around a fixed frame: the frame's packet must not change
 	c.Section("neighbours", c.N(60000, 1500000), func(cs *core.Case) {
 		r := cs.R
